@@ -1,4 +1,6 @@
 import PttVerif.Model.C07
+set_option linter.unusedSimpArgs false
+set_option linter.unusedVariables false
 /-
 C07 — helper lemmas: mask tests on 32-bit words = named bits; the interpreter on guarded statement lists.
 Core only.
@@ -209,5 +211,113 @@ theorem runReader_of_guardShape (env : ReadEnv) (hp : env.precheck = false) (ste
       by_cases hs : boardPermStat env.u env.b env.r = NBRD_INVALID
       · simp [runReader, Step.kind, Step.a, Step.b, Step.c, hv, lookup_NBRD_INVALID, hs, hdeny]
       · simp [runReader, Step.kind, Step.a, Step.b, Step.c, hv, lookup_NBRD_INVALID, hs, hcont]
+
+/-- content is reached only through the permission test, whatever the argument checks do -/
+theorem runReader_harmless_allow (env : ReadEnv) (s : Step) (rest : List Step) (st : RState)
+    (h : isHarmlessStep s = true) (ha : runReader env (s :: rest) st = .allow) : runReader env rest st = .allow := by
+  obtain ⟨k, a, b, c, ds⟩ := s
+  simp only [isHarmlessStep, Step.kind, Step.a, Step.c, Bool.or_eq_true, Bool.and_eq_true, decide_eq_true_eq] at h
+  rcases h with ⟨rfl, hc⟩ | ⟨rfl, hh⟩
+  · cases hp : env.precheck
+    · simpa [runReader, Step.kind, Step.a, Step.b, Step.c, hc, hp] using ha
+    · simp [runReader, Step.kind, Step.a, Step.b, Step.c, hc, hp] at ha
+  · have hh' : a ∈ harmlessCallees := by simpa using hh
+    simpa [runReader, Step.kind, Step.a, Step.b, Step.c, hh', harmless_not_content a hh'] using ha
+
+theorem runReader_dropWhile_allow (env : ReadEnv) (steps : List Step) (st : RState)
+    (ha : runReader env steps st = .allow) : runReader env (steps.dropWhile isHarmlessStep) st = .allow := by
+  induction steps with
+  | nil => simpa using ha
+  | cons s rest ih =>
+    cases h : isHarmlessStep s
+    · simpa [List.dropWhile, h] using ha
+    · simp only [List.dropWhile, h]; exact ih (runReader_harmless_allow env s rest st h ha)
+
+theorem allow_of_guardShape (env : ReadEnv) (steps : List Step) (hg : guardShape steps = true)
+    (ha : runReader env steps {} = .allow) : env.bidValid = true ∧ boardPermStat env.u env.b env.r ≠ NBRD_INVALID := by
+  have ha := runReader_dropWhile_allow env steps {} ha
+  unfold guardShape at hg
+  generalize steps.dropWhile isHarmlessStep = gs at hg ha
+  match gs, hg with
+  | g1 :: g2 :: g3 :: g4 :: rest, hg =>
+    obtain ⟨k1, a1, b1, c1, d1⟩ := g1
+    obtain ⟨k2, a2, b2, c2, d2⟩ := g2
+    obtain ⟨k3, a3, b3, c3, d3⟩ := g3
+    obtain ⟨k4, a4, b4, c4, d4⟩ := g4
+    simp only [Step.kind, Step.a, Step.b, Step.c, Bool.and_eq_true, decide_eq_true_eq] at hg
+    obtain ⟨⟨⟨⟨⟨⟨⟨⟨⟨rfl, rfl⟩, rfl⟩, rfl⟩, rfl⟩, rfl⟩, rfl⟩, rfl⟩, hdeny⟩, hrest⟩ := hg
+    cases hv : env.bidValid
+    · simp [runReader, Step.kind, Step.a, Step.b, Step.c, hv] at ha
+    · refine ⟨rfl, ?_⟩
+      intro hs
+      simp [runReader, Step.kind, Step.a, Step.b, Step.c, hv, lookup_NBRD_INVALID, hs, hdeny] at ha
+
+/-! ### listing side -/
+
+theorem groupOp_eq (u : UserView) (r : Relation) : groupOp u r = Spec.administers u r := by
+  unfold groupOp Spec.administers Spec.boardAdmin
+  rw [test_BOARD]
+  cases Spec.bit u.level 13 <;> cases r.namedBM <;> cases hasUserPerm u.level (w PERM_NOCITIZEN) <;> rfl
+
+theorem boardPermStat_range (u : UserView) (b : BoardView) (r : Relation) :
+    boardPermStat u b r = 0 ∨ boardPermStat u b r = 1 ∨ boardPermStat u b r = 2 := by
+  unfold boardPermStat boardPermStatNormally
+  rw [nbrd_vals.1, nbrd_vals.2.1, nbrd_vals.2.2.1]
+  repeat' split
+  all_goals simp
+
+/-- NBRD_BOARD is the state of a hidden, unmasked board seen by somebody who is neither privileged nor a friend -/
+theorem boardPermStat_eq_BOARD (u : UserView) (b : BoardView) (r : Relation) :
+    (boardPermStat u b r == NBRD_BOARD) =
+      (!Spec.sysop u && !(Spec.moderatorsBoard b && Spec.police u) && !Spec.moderator u r &&
+        Spec.hidden b && !r.friend && !Spec.restricted b) := by
+  unfold boardPermStat boardPermStatNormally Spec.sysop Spec.police Spec.moderatorsBoard Spec.hidden Spec.restricted
+  rw [test_SYSOP, test_POLICE, test_POLICE_MAN, test_BM, isBMCache_eq, test_HIDE, test_POSTMASK, test_POSTMASK0, test_OVER18,
+    nbrd_vals.1, nbrd_vals.2.1, nbrd_vals.2.2.1]
+  generalize Spec.bit u.level 14 = sysop
+  generalize Spec.bit u.level 31 = pol
+  generalize Spec.bit u.level 28 = polman
+  generalize Spec.bit b.level 10 = bmb
+  generalize Spec.moderator u r = mod
+  generalize Spec.bit b.attr 4 = hide
+  generalize Spec.bit b.attr 5 = mask
+  generalize Spec.bit b.attr 24 = o18
+  generalize (b.level != 0 && !mask && !hasUserPerm u.level b.level) = lv
+  generalize r.friend = fr
+  generalize u.over18 = adult
+  cases sysop <;> cases pol <;> cases polman <;> cases bmb <;> cases mod <;> cases hide <;> cases mask <;> cases o18 <;>
+    cases lv <;> cases fr <;> cases adult <;> rfl
+
+/-- what parseBoardSummary makes of a stat produced by boardPermStat -/
+theorem parse_of_range (v : Nat) (g f : Bool) (hv : v = 0 ∨ v = 1 ∨ v = 2) :
+    parseBoardSummary { attr := v, isGroupOp := g } f = if !g && v == 0 then .masked else .full := by
+  unfold parseBoardSummary
+  rw [nbrd_vals.1, nbrd_vals.2.2.2.1, nbrd_vals.2.2.2.2]
+  rcases hv with rfl | rfl | rfl <;> cases g <;> cases f <;> decide
+
+/-- the board header with BRD_POSTMASK set -/
+def setMask (b : BoardView) : BoardView := { b with attr := b.attr ||| w BRD_POSTMASK }
+
+theorem newBoardStat_eq (v : Nat) (b : BoardView) (g : Bool) :
+    newBoardStat v b g =
+      ({ attr := v, isGroupOp := g }, if Spec.hidden b && !Spec.restricted b && v == NBRD_BOARD then setMask b else b) := by
+  unfold newBoardStat setMask Spec.hidden Spec.restricted
+  rw [test_HIDE, test_POSTMASK0]
+
+theorem bit_setMask (x : W) (i : Nat) : Spec.bit (x ||| w BRD_POSTMASK) i = (Spec.bit x i || (i == 5)) := by
+  unfold Spec.bit
+  rw [masks.2.2.2.2.2.2.2.2.2.1, BitVec.getLsbD_or, BitVec.getLsbD_twoPow]
+  by_cases h : 5 = i
+  · subst h; simp
+  · have : (i == 5) = false := by simp; omega
+    simp [h, this]
+
+theorem test_GROUPSYM' (x : W) :
+    ((x &&& (w BRD_GROUPBOARD ||| w BRD_SYMBOLIC)) != 0#32) = (Spec.bit x 3 || Spec.bit x 15) := test_GROUPSYM x
+
+/-- newBoardStat writes exactly when the state is NBRD_BOARD (that state already implies hidden and unmasked) -/
+theorem mut_cond (u : UserView) (b : BoardView) (r : Relation) :
+    (Spec.hidden b && !Spec.restricted b && boardPermStat u b r == NBRD_BOARD) = (boardPermStat u b r == NBRD_BOARD) := by
+  rw [boardPermStat_eq_BOARD]; cases Spec.hidden b <;> cases Spec.restricted b <;> simp
 
 end PttVerif.C07
